@@ -11,21 +11,21 @@ Lemma inv_rf_fixed P cfg st src st' n e :
   Inv st -> rec_read_from_fixed P cfg st src = (st', n, e) -> Inv st'.
 Proof.
   destruct st as [r u]. intros I H. unfold rec_read_from_fixed in H.
-  destruct (r_hij r).
+  destruct (r_hij r) eqn:Hh.
   - apply pair_equal_spec in H as [H _]. apply pair_equal_spec in H as [<- _]. exact I.
   - destruct (r_size r =? not_written) eqn:E.
-    + apply eqb_nw_true in E. pose proof (inv_implicit_header r u I E) as I1.
+    + apply eqb_nw_true in E. pose proof (inv_implicit_header r u I E) as I1. rewrite Hh in I1.
       destruct (c_rf cfg).
       * destruct (uw_read_from P (uw_header u (r_status r)) src) as [[u2 n2] e2] eqn:HR.
         apply pair_equal_spec in H as [H _]. apply pair_equal_spec in H as [<- _].
         eapply (inv_uw_read_from P _ _ _ _ _ _ _ I1); [simpl; discriminate|exact HR].
-      * eapply inv_copy_rec_write; eauto.
+      * eapply inv_copy_rec_write; [exact I1|exact H].
     + apply eqb_nw_false in E.
       destruct (c_rf cfg).
       * destruct (uw_read_from P u src) as [[u2 n2] e2] eqn:HR.
         apply pair_equal_spec in H as [H _]. apply pair_equal_spec in H as [<- _].
         eapply (inv_uw_read_from P _ _ _ _ _ _ _ I); [exact E|exact HR].
-      * eapply inv_copy_rec_write; eauto.
+      * eapply inv_copy_rec_write; [exact I|exact H].
 Qed.
 
 Lemma inv_run_fixed P cfg cs : Inv (fst (run_fixed P cfg cs)).
@@ -50,7 +50,7 @@ Proof. apply inv_discipline, inv_run_fixed. Qed.
 
 (* ---------- bytes in order ---------- *)
 
-Lemma rf_fixed_bytes P cfg : rf_bytes_ok rec_read_from_fixed P cfg.
+Lemma rf_fixed_bytes P cfg : rf_bytes_ok Inv rec_read_from_fixed P cfg.
 Proof.
   intros [r u] src st' n e I H. unfold rec_read_from_fixed in H.
   destruct (r_hij r).
@@ -82,7 +82,9 @@ Lemma fixed_bytes_forwarded_in_order P cfg cs c :
   bytes_in_order c r (lg (snd st)) (lg (snd st')).
 Proof.
   intros C st. destruct (step_fixed P cfg st c) as [st' r] eqn:H.
-  eapply step_bytes; eauto using rf_fixed_bytes. apply inv_run_fixed.
+  eapply (step_bytes rec_read_from_fixed P cfg Inv); eauto using rf_fixed_bytes.
+  - intros s v c0 Is. apply inv_rec_write_header. apply inv_on_u; auto.
+  - apply inv_run_fixed.
 Qed.
 
 (* ---------- with or without the fast paths ---------- *)
@@ -107,9 +109,9 @@ Proof.
     destruct (is_nil e); [destruct (Nat.eqb n (length c))|].
     + rewrite IH; [|reflexivity|simpl; lia].
       destruct (copy_chunks (uw_write P) u2 cs (w + n) fail) as [[u' w'] e']. simpl.
-      repeat f_equal. rewrite Nat2Z.inj_add. lia.
-    + repeat f_equal. rewrite Nat2Z.inj_add. lia.
-    + repeat f_equal. rewrite Nat2Z.inj_add. lia.
+      do 4 f_equal. lia.
+    + do 4 f_equal. lia.
+    + do 4 f_equal. lia.
 Qed.
 
 (* ReadFrom (fixed) does not depend on which interfaces the underlying writer offers *)
@@ -135,11 +137,11 @@ Proof.
     destruct (r_size r =? not_written) eqn:E.
     + rewrite copy_rec_write_eq; [|reflexivity|simpl; lia].
       unfold uw_read_from. destruct (copy_chunks (uw_write P) _ _ _ _) as [[u' w'] e']. simpl.
-      repeat f_equal. lia.
+      do 4 f_equal. lia.
     + apply eqb_nw_false in E. destruct Hs as [Hs|Hs]; [contradiction|].
       rewrite copy_rec_write_eq; auto.
       unfold uw_read_from. destruct (copy_chunks (uw_write P) _ _ _ _) as [[u' w'] e']. simpl.
-      rewrite Hh. repeat f_equal. lia.
+      rewrite Hh. do 4 f_equal. lia.
 Qed.
 
 Lemma rf_fixed_canon P cfg st src : Inv st -> rec_read_from_fixed P cfg st src = rf_canon P st src.
@@ -191,3 +193,25 @@ Proof.
   destruct (step_fixed P cfg st c) as [st' r] eqn:H. eapply step_caps; eauto.
 Qed.
 
+(* ---------- helpers ---------- *)
+
+Lemma rf_fixed_after_header P cfg code ct src st' n e :
+  rec_read_from_fixed P cfg (mkr 0 code false, mku [EvHeader code] (Some ct) None) src = (st', n, e) ->
+  sent_exactly code (Some ct) None (s_data src) st' e.
+Proof.
+  rewrite rf_fixed_canon_sane; [|right; simpl; lia].
+  unfold rf_canon. simpl.
+  destruct (uw_read_from P (mku [EvHeader code] (Some ct) None) src) as [[u2 n2] e2] eqn:HR.
+  intros H. apply pair_equal_spec in H as [H <-]. apply pair_equal_spec in H as [<- <-].
+  destruct (uw_read_from_log _ _ _ _ _ _ HR) as (bs & k & Hl & Hc & Hn & He & Hct & Hloc).
+  unfold sent_exactly. simpl. rewrite Hl, headers_app, headers_map_body, body_app, body_map_body. simpl.
+  repeat split; auto. exists k. auto.
+Qed.
+
+Lemma fixed_helpers_exact P cfg c :
+  io_writer_contract P -> is_helper c = true -> final (helper_code c) = true ->
+  let '(st', r) := step_fixed P cfg st_init c in
+  helper_exact c r (lg (snd st')) (u_ct (snd st')) (u_loc (snd st')) (rec_answers (fst st')).
+Proof.
+  intros C. apply step_helper_exact; auto. apply rf_fixed_after_header.
+Qed.
